@@ -180,28 +180,6 @@ Qed.
 
 (** ---- keys of one registry, in first-occurrence order ---- *)
 
-Definition item_key (k : kind) (it : item) : option key :=
-  match it with
-  | IDef d => if kind_eqb (d_kind d) k then Some (d_name d) else None
-  | IExt e => if kind_eqb (e_kind e) k then Some (e_name e) else None
-  | IDir _ => None
-  end.
-
-Definition mem_key (n : key) (ks : list key) : bool := existsb (key_eqb n) ks.
-
-Definition add_key (o : option key) (ks : list key) : list key :=
-  match o with
-  | Some n => if mem_key n ks then ks else ks ++ [n]
-  | None => ks
-  end.
-
-Fixpoint keys_acc (k : kind) (doc : list item) (acc : list key) : list key :=
-  match doc with
-  | [] => acc
-  | it :: r => keys_acc k r (add_key (item_key k it) acc)
-  end.
-Definition keys (k : kind) (doc : list item) : list key := keys_acc k doc [].
-
 Lemma keys_acc_app k a : forall b acc, keys_acc k (a ++ b) acc = keys_acc k b (keys_acc k a acc).
 Proof. induction a as [|it r IH]; intros b acc; [reflexivity|]. cbn. apply IH. Qed.
 
